@@ -433,6 +433,13 @@ class Check(object):
                                    "spec": exp[k:k + 3], "code": got[k:k + 3]})
         if drifts:
             self.notes.setdefault("drift_samples", []).extend(drifts)
+        ndrift = sum(1 for ((t, r), _v) in pairs
+                     if norm_polled(project(r["trace"]), unordered) != norm_polled(exp_by_id[id(t)], unordered))
+        if len(pairs) >= 20 and ndrift == len(pairs):
+            # EVERY behaviour of the batch differs from the code's history: the binding itself is broken (a projection
+            # that lost an event, a model that gained one): not a verdict about the code, and not to be overlooked
+            self.machinery_errors.append("spec -> code replay: all %d behaviours of a batch drift (%s), e.g. %s" % (
+                len(pairs), trace_module, json.dumps(drifts[0])[:600]))
         return pairs
 
     def _judge(self, task, result, clause, step, trace_module):
